@@ -343,6 +343,25 @@ Section Routes.
     eapply ml_cons; eauto.
   Qed.
 
+  (* the self-alias test (fix a4faf69): when no alias of the chain points back at the question in any
+     spelling — the test that turns the reply into SERVFAIL — every hop the chase serves was admitted for a
+     name different from the question's under the ASCII fold; and when one does, the model serves nothing
+     (Run.v reports the id list [0]) *)
+  Lemma msg_chase_no_selfloop (s : store) fuel : forall qname qt qc cd e,
+    msg_chase_selfloop K K_eqb H s fuel qname qt qc cd e = false ->
+    Forall (fun x => fold (q_name (e_q x)) <> fold qname) (msg_chase K K_eqb H s fuel qt qc cd e).
+  Proof.
+    induction fuel as [|f IH]; intros qname qt qc cd e Hl; [constructor|].
+    cbn [msg_chase msg_chase_selfloop] in *. destruct (e_has_qtype e); [constructor|].
+    destruct (e_alias e) as [tw|]; [|constructor].
+    destruct (parse_wire tw) as [ls|]; cbn [option_map] in *; [|constructor].
+    destruct (bytes_eqb (fold (present ls)) (fold qname)) eqn:Eb; [discriminate|].
+    destruct (store_lookup s (mk_q (present ls) qt qc) cd) as [nxt|] eqn:El; [|constructor].
+    apply store_lookup_sound in El. destruct El as [[Hn _] _]. cbn [q_name] in Hn.
+    constructor; [|apply IH; exact Hl].
+    rewrite Hn. intros Heq. rewrite Heq, bytes_eqb_refl in Eb. discriminate.
+  Qed.
+
   (* ---- subtree cuts *)
   Lemma cut_get_spec name qc l c :
     cut_get name qc l = Some c -> c_name c = name /\ c_class c = qc.
